@@ -385,6 +385,16 @@ def _sampled(rng, n, maxdim=12):
                 yield dict(rows=r, cols=c, edges=e2, kind="targeted", start=list(s), end=list(e), tag="nonwf", claim=False)
 
 
+def _big(rng, shapes):
+    """grids whose pixel coordinates pass 127 / 255 (2*64+1 = 129, 2*128+1 = 257): narrow integer arithmetic shows here"""
+    for r, c in shapes:
+        edges, mode = _random_structure(rng, r, c)
+        cells = [(0, 0), (r - 1, c - 1), (r - 1, 0), (0, c - 1), (rng.randrange(r), rng.randrange(c))]
+        pairs = [(cells[0], cells[1]), (cells[2], cells[3]), (cells[4], cells[1])]
+        for cs in _cases_for_structure(r, c, edges, pairs=pairs):
+            cs["tag"] = "big:" + mode; yield cs
+
+
 def _damaged_images(rng, n):
     """read requests on images that as_pixels cannot produce: markers added / removed / moved (all three classes)"""
     np, LM = _mods()
@@ -545,6 +555,7 @@ def run(ctx):
             cases.append(json.loads(p.read_text()))
     cases += list(_exhaustive(QUICK_SHAPES if ctx.quick else THOROUGH_SHAPES, targeted_stride=3 if ctx.quick else 2))
     cases += list(_sampled(ctx.rng, 200 if ctx.quick else 3000))
+    cases += list(_big(ctx.rng, [(66, 2), (2, 130)] if ctx.quick else [(64, 64), (130, 130), (70, 40), (1, 300), (300, 1), (128, 3), (3, 129)]))
     ctx.exhaustive = True
     ctx.extra["exhaustive_domain"] = f"all connection structures x all ordered endpoint pairs x BFS shortest paths on shapes {QUICK_SHAPES if ctx.quick else THOROUGH_SHAPES}"
     _run_cases(ctx, cases)
